@@ -423,7 +423,7 @@ func (e *Exec) heapGet(s *State, o *Obj) Value {
 		}
 		// a package-level scalar that nothing but init assigns has the value of its initialiser, when that is a
 		// constant expression over constants and other such globals (`var max = 9`, `var total = max + 20`)
-		if isScalar(o.Typ) && !isFloat(o.Typ) && e.w.globalStable(o.Global) {
+		if isScalar(o.Typ) && !isFloat(o.Typ) && !token.IsExported(o.Global.Name()) && e.w.globalStable(o.Global) {
 			if t := e.scalarInit(o.Global, 0); t != nil {
 				e.note("package-level variable " + o.Global.Name() + " has the value of its initialiser (no function assigns it)")
 				v = t
